@@ -331,6 +331,7 @@ impl Side {
         std::os::unix::fs::symlink("loop.zy", self.root.join("loop.zy"))?;
         if symlinks {
             std::os::unix::fs::symlink("a.zy", self.root.join("l.zy"))?;
+            std::os::unix::fs::symlink("a.zy", self.root.join("7"))?;
             std::os::unix::fs::symlink("d", self.root.join("dl"))?;
             // companions that are links to a signature elsewhere
             std::os::unix::fs::symlink("b.zyi", self.root.join("c.zyi"))?;
